@@ -165,6 +165,7 @@ type Frame struct {
 	curBlk  *ssa.BasicBlock
 	curReach string
 	curSt    *State
+	curPos   token.Pos // position of the instruction being executed (for an inlining caller: the call)
 	closures []*Closure // closures created in this frame (their captured state may be touched when they escape)
 	jointExit map[*ssa.BasicBlock]bool // returning blocks whose [rundefers; loads; return] tail is executed once after merging
 	jointSts  []*State
@@ -173,6 +174,7 @@ type Frame struct {
 	objs     []*types.Var
 	objSeen  map[*types.Var]bool
 	allocOf  map[types.Object]*ssa.Alloc // address-taken source variables and their cells
+	freeOf   map[types.Object]*ssa.FreeVar // captured source variables (closures): resolved through the captured cell
 }
 
 func (g *Gen) newFrame(fn *ssa.Function, parent *Frame) *Frame {
@@ -825,6 +827,9 @@ func (g *Gen) execFunc(fr *Frame, st *State, guard string) ([]Val, *State, strin
 			if !started {
 				continue
 			}
+			if in.Pos().IsValid() {
+				fr.curPos = in.Pos()
+			}
 			if !g.execInstr(fr, mst, in, mr) {
 				break
 			}
@@ -944,6 +949,9 @@ func (g *Gen) runBlocks(fr *Frame, order []*ssa.BasicBlock, st0 *State, guard st
 				fr.jointBlk = b
 				alive = false
 				break
+			}
+			if in.Pos().IsValid() {
+				fr.curPos = in.Pos()
 			}
 			if !g.execInstr(fr, st, in, r) {
 				alive = false
@@ -1307,11 +1315,44 @@ func (fr *Frame) collectObjs() {
 	}
 	fr.objSeen = map[*types.Var]bool{}
 	fr.allocOf = map[types.Object]*ssa.Alloc{}
+	fr.freeOf = map[types.Object]*ssa.FreeVar{}
 	for _, b := range fr.fn.Blocks {
 		for _, in := range b.Instrs {
 			if d, ok := in.(*ssa.DebugRef); ok && d.IsAddr && d.Object() != nil {
 				if a, ok := d.X.(*ssa.Alloc); ok {
 					fr.allocOf[d.Object()] = a
+				}
+			}
+			// captured variables are always resolved through the captured cell
+			if d, ok := in.(*ssa.DebugRef); ok && d.Object() != nil {
+				if fv, ok := d.X.(*ssa.FreeVar); ok && d.IsAddr {
+					fr.freeOf[d.Object()] = fv
+				}
+				if u, ok := d.X.(*ssa.UnOp); ok && !d.IsAddr && u.Op == token.MUL {
+					if fv, ok := u.X.(*ssa.FreeVar); ok {
+						fr.freeOf[d.Object()] = fv
+					}
+				}
+			}
+		}
+	}
+	// variables that live in a cell (captured by a closure, or address-taken) whose debug references only mention loaded
+	// values: the cell is the Alloc carrying the variable's name and declaration position
+	allocAt := map[token.Pos]*ssa.Alloc{}
+	for _, b := range fr.fn.Blocks {
+		for _, in := range b.Instrs {
+			if a, ok := in.(*ssa.Alloc); ok && a.Comment != "" && a.Pos().IsValid() {
+				allocAt[a.Pos()] = a
+			}
+		}
+	}
+	for _, b := range fr.fn.Blocks {
+		for _, in := range b.Instrs {
+			if d, ok := in.(*ssa.DebugRef); ok && d.Object() != nil {
+				if a, ok := allocAt[d.Object().Pos()]; ok && a.Comment == d.Object().Name() {
+					if _, have := fr.allocOf[d.Object()]; !have {
+						fr.allocOf[d.Object()] = a
+					}
 				}
 			}
 		}
